@@ -12,6 +12,8 @@ use std::sync::Arc;
 use vh_core::engine::{no_panic, Obs, PropSpec, Rel, Tape, Tier, R};
 use vh_core::{ensure, ensure_eq};
 
+mod ext;
+
 // ---------------------------------------------------------------------------------------------------------
 // kinds of domain and the brute-force size oracle
 // ---------------------------------------------------------------------------------------------------------
@@ -820,13 +822,19 @@ fn relations(tier: Tier) -> Vec<Rel> {
     mixed_field!(ark_curve25519::Fq, "curve25519.Fq", 2);
     mixed_field!(ark_bn254::Fr, "bn254.Fr", 3);
     mixed_field!(ark_bls12_381::Fq, "bls12_381.Fq", 2);
+    // FftField is also implemented for the quadratic / cubic extension templates (roots embedded from the base field)
+    ext::field_rels::<ark_test_curves::mnt6_753::Fq3>(&mut out, "test.mnt6_753.Fq3", tier, 60);
+    ext::field_rels::<ark_mnt4_298::Fq2>(&mut out, "mnt4_298.Fq2", tier, 120);
+    ext::field_rels::<ark_mnt6_298::Fq3>(&mut out, "mnt6_298.Fq3", tier, 120);
+    ext::field_rels::<ark_bls12_381::Fq2>(&mut out, "bls12_381.Fq2", tier, 8);
+    ext::field_rels::<ark_test_curves::bn384_small_two_adicity::Fq>(&mut out, "ext-generic.test.bn384.Fq", tier, 150);
     out
 }
 
 fn main() {
     vh_core::engine::main(PropSpec {
         id: "C07",
-        rule: "A case is a domain kind (Radix2 / MixedRadix / General) over one of 20 fields (BLS12-381 Fr, Goldilocks, toy fields of two-adicity 1, 4, 5, 16, five toy mixed-radix fields whose whole {2^a q^b} lattice is walked, and the shipped fields that declare a small subgroup), a requested size n that rounds up to a constructible size (every n in 0..=bound is also enumerated for new(n)), a coset offset in {1, GENERATOR, tape-chosen, an element of the subgroup}, a coefficient/evaluation vector (uniform, half zero, monomial, all ones, small values, edge values in front) whose length is drawn around the degree-aware threshold (size/4, size/4+1), size/2±1, 0, 1, size-1, size, or an evaluation point (tape, 0, 1, a domain element, the offset, a subgroup element). Oracles: Horner evaluation at h·g^i (g^i by repeated multiplication), product definitions of the vanishing polynomial and of the Lagrange coefficients, brute-force minimal size over all (a,b), exact element order. Non-trivial: size >= 4 and 1 <= len <= size with a non-zero entry (transforms); size >= 4 (vanishing/Lagrange); n >= 2 (construction, roots). distinct = distinct decoded choice sequences.",
+        rule: "A case is a domain kind (Radix2 / MixedRadix / General) over one of 20 prime fields and 4 extension fields (mnt6_753 Fq3, mnt4_298 Fq2, mnt6_298 Fq3, bls12_381 Fq2: FftField constants, get_root_of_unity, domains up to size 120 with fft vs Horner) (BLS12-381 Fr, Goldilocks, toy fields of two-adicity 1, 4, 5, 16, five toy mixed-radix fields whose whole {2^a q^b} lattice is walked, and the shipped fields that declare a small subgroup), a requested size n that rounds up to a constructible size (every n in 0..=bound is also enumerated for new(n)), a coset offset in {1, GENERATOR, tape-chosen, an element of the subgroup}, a coefficient/evaluation vector (uniform, half zero, monomial, all ones, small values, edge values in front) whose length is drawn around the degree-aware threshold (size/4, size/4+1), size/2±1, 0, 1, size-1, size, or an evaluation point (tape, 0, 1, a domain element, the offset, a subgroup element). Oracles: Horner evaluation at h·g^i (g^i by repeated multiplication), product definitions of the vanishing polynomial and of the Lagrange coefficients, brute-force minimal size over all (a,b), exact element order. Non-trivial: size >= 4 and 1 <= len <= size with a non-zero entry (transforms); size >= 4 (vanishing/Lagrange); n >= 2 (construction, roots). distinct = distinct decoded choice sequences.",
         assumptions: &[
             "prime-field arithmetic (+, *, inverse, pow) is correct (C01)",
             "the declared SMALL_SUBGROUP_BASE is prime (3, 5, 7 in all configurations used)",
